@@ -596,7 +596,36 @@ func (w *vWorld) servePiece(i, pi int, mode string) string {
 				}
 				time.Sleep(20 * time.Microsecond)
 			}
-			if mode == "ok" || mode == "closefail" {
+			// barrier: the watcher refreshes lastRead after the reader's Close returned, still inside the conn's
+			// sendMessage. The write loop is sequential, so once a marker message sent behind the payload has
+			// reached the remote end — or the conn has closed itself after a failed send — that has happened.
+			if res == "sent" {
+				local.Send(conn.NewCompleteMessage())
+				for dl := time.Now().Add(60 * time.Second); ; time.Sleep(20 * time.Microsecond) {
+					if local.IsClosed() {
+						break
+					}
+					var got *conn.Message
+					select {
+					case got = <-remote.Receiver():
+					default:
+					}
+					if got != nil && got.Message.Type == p2p.Message_COMPLETE {
+						break
+					}
+					if got != nil && got.Message.Type == p2p.Message_PIECE_PAYLOAD {
+						b, _ := io.ReadAll(got.Payload)
+						got.Payload.Close()
+						if !bytes.Equal(b, w.blobs[i].piece(pi)) {
+							res = "sent-garbled"
+						}
+					}
+					if time.Now().After(dl) {
+						panic("harness: serve barrier not reached")
+					}
+				}
+			}
+			if false {
 				// what the remote end received, unless the conn broke (evicted blob: the copy fails)
 				for dl := time.Now().Add(5 * time.Second); time.Now().Before(dl); time.Sleep(20 * time.Microsecond) {
 					var got *conn.Message
